@@ -6,9 +6,10 @@ Ev == Events(h)[l]
 Adv == l' = l + 1 /\ h' = h
 More == l <= Len(Events(h))
 TS == More /\ Ev.e = "Stored" /\ Stored(Ev.v, Ev.key, Ev.len) /\ Adv
+TPr == More /\ Ev.e = "Produced" /\ Produced(Ev.v, Ev.key, Ev.len) /\ Adv
 TP == More /\ Ev.e = "Purged" /\ Purged(Ev.key) /\ Adv
 TX == More /\ Ev.e = "Stop" /\ Stop(Ev.kind) /\ Adv
 TA == More /\ Ev.e = "After" /\ After(Ev.key, Ev.contacted, Ev.hv, Ev.bv, Ev.blen, Ev.intact, Ev.complete) /\ Adv
-TNext == TS \/ TP \/ TX \/ TA
+TNext == TPr \/ TS \/ TP \/ TX \/ TA
 Mark == MarkAccepted(h, l)
 ====
